@@ -1,7 +1,7 @@
 #!/usr/bin/env python3
-# Re-measures the fourth-round seeded changes (seeded/*-r5*): runs every property whose package a change touches on a
+# Re-measures the fifth-round seeded changes (seeded/*-r5*): runs every property whose package a change touches on a
 # scratch copy with the change applied, records in meta.json which checks report it now (mutants: detected_by;
-# refactors: alarms_now / outside_fragment) and regenerates DESIGN.md §9.3.
+# refactors: alarms_now / outside_fragment) and regenerates DESIGN.md §9.4.
 import json,glob,os,re,subprocess,sys
 from concurrent.futures import ThreadPoolExecutor
 pkg={'C01':'logger','C02':'logger','C03':'logger','C13':'logger','C15':'logger httpd','C04':'httpd','C05':'httpd','C06':'tasklane','C07':'tasklane','C08':'tasklane','C14':'tasklane','C09':'config','C10':'config','C11':'util/netutil','C12':'util/netutil','C16':'util/strutil','C17':'util/fsutil','C18':'util/osutil','C19':'util/ioutil','C20':'daemon'}
@@ -32,7 +32,7 @@ for m in metas:
         meta['alarms_now']=sorted(rep)
         meta['alarm_rules_now']={c:r for c,r in sorted(rep.items())}
         if rep:
-            meta['status']='documented limit: the construct is outside the fragment of '+', '.join(sorted(rep))+' (DESIGN §9.3); silent under the other checks'
+            meta['status']='documented limit: the construct is outside the fragment of '+', '.join(sorted(rep))+' (DESIGN §9.4); silent under the other checks'
             meta['outside_fragment']=sorted(rep)
         else:
             meta['status']='silent under all checks of the packages it touches'
@@ -44,10 +44,10 @@ for m in metas:
         mrows.append((n,what,meta.get('reported_when_collected',[]),rep))
     json.dump(meta,open(m,'w'),indent=1)
 out=['### 9.4 Fifth round (ordinary-looking breaking commits, small single-kind refactors)\n',
-'Prompts asked for changes a reviewer would wave through: defects hidden inside an extracted helper or behind a plausible',
-'comment, and refactors that combine several restructurings at once (new helper types, state moved into structs, standard-library',
-'calls replaced by loops and vice versa). `tools/collect_round4.sh` confirmed each (build, vet, existing suite, demonstration',
-'or equivalence test) and `tools/gen_round4.py` re-measures this table on every rule change.\n',
+'Prompts asked for what lands in a repository every week: three small ordinary-looking commits per property that break it',
+'("small optimisation", "handle X too", "tidy error handling"), aimed at clauses and code sites the earlier rounds had not touched',
+'(constructors, sibling implementations, rare branches, boundary values, two functions interacting, clean-up paths), and two small',
+'single-kind behaviour-preserving edits. `tools/collect_round5.sh` confirmed each; `tools/gen_round5.py` re-measures this table.\n',
 '**Breaking changes** — "when collected": checks that reported it before any rule was touched; "now": checks and rules that report it today.\n',
 '| Change | What it breaks | When collected | Now (rules) |','|---|---|---|---|']
 for n,w,a,rep in mrows:
